@@ -370,17 +370,25 @@ def series_lockstep(chk, repo, rid):
     f = repo.func('svgraph.VariantPeptideDict:MiscleavedNodes.join_miscleaved_peptides')
     chk.uses(f)
     ch = sem.block_chains(f.node)
-    loops_ = [l for l in ast.walk(f.node) if isinstance(l, ast.For) and isinstance(l.iter, ast.Call) and call_name(l.iter) == 'enumerate'
-              and isinstance(l.target, ast.Tuple) and len(l.target.elts) == 2 and isinstance(l.target.elts[1], ast.Name)
-              and any(isinstance(x, ast.Attribute) and x.attr == 'selenocysteines' for x in ast.walk(l))]
+    loops_ = [l for l in ast.walk(f.node) if isinstance(l, ast.For) and any(isinstance(x, ast.Attribute) and x.attr == 'selenocysteines' for x in ast.walk(l))]
+    loops_ = [l for l in loops_ if not any(m is not l and any(x is m for x in ast.walk(l)) for m in loops_)]      # innermost
     if len(loops_) != 1:
-        chk.undecided(rid, 'series loop', f.where, f"{len(loops_)} enumerate loops reading .selenocysteines", key=f.qual + '::loop', fn=f.qual)
+        chk.undecided(rid, 'series loop', f.where, f"{len(loops_)} loops reading .selenocysteines", key=f.qual + '::loop', fn=f.qual)
         return
     lp = loops_[0]
-    N = lp.target.elts[1].id
-    # the sequence piece that is joined comes from N
-    pieces = [st for st in ast.walk(lp) if isinstance(st, ast.Assign) and len(st.targets) == 1 and isinstance(st.targets[0], ast.Name)
-              and re.fullmatch(r'str\(' + re.escape(N) + r'\.seq\.seq\)', unparse(st.value))]
+    # the series element: the loop variable whose sequence is the joined piece (`str(N.seq.seq)`), however the loop enumerates the series
+    tvars = {t.id for t in ast.walk(lp.target) if isinstance(t, ast.Name)}
+    pieces = []
+    N = None
+    for st in ast.walk(lp):
+        if isinstance(st, ast.Assign) and len(st.targets) == 1 and isinstance(st.targets[0], ast.Name):
+            m_ = re.fullmatch(r'str\((\w+)\.seq\.seq\)', unparse(st.value))
+            if m_ and m_.group(1) in tvars:
+                pieces.append(st)
+                N = m_.group(1)
+    if N is None:
+        chk.undecided(rid, 'series loop', repo.loc(f, lp), 'the joined sequence piece `str(<loop variable>.seq.seq)` was not found', key=f.qual + '::loop', fn=f.qual)
+        return
     chk.ob(rid, 'the joined sequence piece is the sequence of the series element', repo.loc(f, lp), len(pieces) == 1,
            'the piece appended to the peptide is not `str(<series element>.seq.seq)`', key=f.qual + '::piece', fn=f.qual)
     bad = []
